@@ -484,89 +484,105 @@ REGIONS = {'f2x11_negative': _reg_neg, 'f2x11_subminimum': _reg_tiny, 'f2x11_ove
 # ----------------------------------------------------------------------------- shared-exponent format F3x9_E1x5 (RGB9E5): three 9-bit mantissas m_k (first component lowest), 5-bit exponent e on top; value_k = m_k * 2^(e-24)
 E5_MAX = 65408.0        # (2^9-1)/2^9 * 2^(31-15): the largest RGB9E5 value (EXT_texture_shared_exponent, 'sharedexp_max')
 E5_TOL = 0.5 + 2.0 ** -15   # floor(y + 0.5): the binary32 sum y + 0.5 < 1024 is off by at most 2^-15
-def apps_of(terms, name):
-    seen = set(); out = []; st = list(terms)
+def _walk(terms):
+    seen = set(); st = list(terms)
     while st:
         x = st.pop()
         if x.get_id() in seen: continue
-        seen.add(x.get_id())
-        if z3.is_app(x):
-            if x.decl().name() == name: out.append(x)
-            st.extend(x.children())
-    return sorted(out, key=lambda a: a.get_id())
-def _out_terms(res): return [bits_of(v) for r in res.outs for v in r]
-def e5_exp2_contract(res):
-    """exp2f is exact at integers: for every application exp2f(t) in the outputs, t integral in [-126,127] => exp2f(t) == 2^t (built from the exponent field; no enumeration of arguments)"""
-    axs = []
-    for app in apps_of(_out_terms(res), 'exp232'):
-        t = app.arg(0); n = z3.fpToSBV(RTZ, t, z3.BitVecSort(9))
-        integral = z3.And(z3.fpEQ(z3.fpRoundToIntegral(RTZ, t), t), z3.fpGEQ(t, FPV(-126.0)), z3.fpLEQ(t, FPV(127.0)))
-        axs.append(z3.Implies(integral, app == z3.fpBVToFP(z3.Concat(z3.BitVecVal(0, 1), z3.Extract(7, 0, n + 127), z3.BitVecVal(0, 23)), F32)))
-    return axs
-def e5_log2_contract(res, E):
-    """faithful log2f on the binade E (None: 0 <= x < 2^-16): log2f(x) in [E, E+1], == E+1 only within 16 ulps below 2^(E+1); tiny/zero x: log2f(x) <= -16 (or -inf), not NaN"""
-    axs = []
-    for app in apps_of(_out_terms(res), 'log232'):
-        Mb = z3.fpToIEEEBV(app.arg(0)); ex = z3.Extract(30, 23, Mb); pos = z3.Extract(31, 31, Mb) == 0
-        if E is None: axs.append(z3.Implies(z3.And(pos, z3.ULE(ex, 110)), z3.And(z3.Not(z3.fpIsNaN(app)), z3.fpLEQ(app, FPV(-16.0)))))
-        else: axs.append(z3.Implies(z3.And(pos, ex == E + 127), z3.And(z3.fpGEQ(app, FPV(float(E))), z3.fpLEQ(app, FPV(float(E + 1))), z3.Implies(z3.fpEQ(app, FPV(float(E + 1))), z3.UGE(z3.Extract(22, 0, Mb), (1 << 23) - 16)))))
-    return axs
+        seen.add(x.get_id()); yield x
+        if z3.is_app(x): st.extend(x.children())
+def apps_of(terms, name): return sorted([x for x in _walk(terms) if z3.is_app(x) and x.decl().name() == name], key=lambda a: a.get_id())
+def exp2_model(a, n):
+    """contract for exp2f: exact at integers in [-126,127] (2^t built from the exponent field), an unconstrained value elsewhere"""
+    k = z3.fpToSBV(RTZ, a, z3.BitVecSort(9)); integral = z3.And(z3.fpEQ(z3.fpRoundToIntegral(RTZ, a), a), z3.fpGEQ(a, FPV(-126.0)), z3.fpLEQ(a, FPV(127.0)))
+    return z3.If(integral, z3.fpBVToFP(z3.Concat(z3.BitVecVal(0, 1), z3.Extract(7, 0, k + 127), z3.BitVecVal(0, 23)), F32), z3.FP('exp2f_elsewhere!%d' % n, F32))
+def _subst_fix(x, sub):
+    for _ in range(len(sub) + 1): x = z3.substitute(x, *sub)
+    return x
+def e5_prepare(fname):
+    """symbolic call of a wrapper with one uint32 output in which the libm applications are replaced by their contracts: exp2f(t) -> exp2_model(t); floor(log2f(M)) -> the variable FL
+    (log2f must only be used through floor). -> (res, output word, FL, M, lemmas 'all log2f applications have the same argument')"""
+    res = sym_call(U, fname); w = res.outs[0][0]; lg = apps_of([w], 'log232')
+    if not lg: raise Unsupported('no log2f application in ' + fname)
+    FL = z3.FP('floor_log2f', F32); same = [l.arg(0) == lg[0].arg(0) for l in lg[1:]]
+    w = z3.substitute(w, *[(z3.fpRoundToIntegral(RTN, l), FL) for l in lg])
+    if apps_of([w], 'log232'): raise Unsupported('log2f used other than through floor in ' + fname)
+    sub = [(app, exp2_model(app.arg(0), n)) for n, app in enumerate(apps_of([w, lg[0].arg(0)], 'exp232'))]
+    w = _subst_fix(w, sub); M = _subst_fix(lg[0].arg(0), sub)
+    if apps_of([w, M], 'exp232'): raise Unsupported('exp2f substitution incomplete in ' + fname)
+    return res, w, FL, M, same
+def e5_cases(w, FL, Mb, E):
+    """the contract for log2f on the binade E of M (None: 0 <= M < 2^-16) leaves floor(log2f(M)) in {E, E+1 (M within 16 ulps below 2^(E+1))} resp. <= -16; the comparison 'largest mantissa rounds to 2^9'
+    (the only fp.leq in the code) is true or false: -> [(case name, hypotheses, output word with the case's constants substituted and folded, shared exponent the case stands for)]"""
+    out = []
+    for flv, hyp in ([(None, [z3.fpLEQ(FL, FPV(-16.0)), z3.Not(z3.fpIsNaN(FL))])] if E is None else [(E, []), (E + 1, [z3.UGE(z3.Extract(22, 0, Mb), (1 << 23) - 16)])]):
+        wf = w if flv is None else z3.simplify(z3.substitute(w, (FL, FPV(float(flv)))))
+        cs = [c for c in _walk([wf]) if z3.is_app(c) and c.decl().kind() == z3.Z3_OP_FPA_LE and not (flv is None and c.eq(hyp[0]))]
+        for cv in ((False, True) if cs else (False,)):
+            wc = z3.simplify(z3.substitute(wf, *[(c, z3.BoolVal(cv)) for c in cs])) if cs else wf
+            out.append(('%s%s' % ('floor' + str(flv) if flv is not None else 'floor<=-16', '.carry' if cv else ''), hyp + [c == cv for c in cs], wc, (0 if flv is None else max(flv, -16) + 16) + (1 if cv else 0)))
+    return out
 def e5_fields(w): return [z3.Extract(9 * k + 8, 9 * k, w) for k in range(3)], z3.Extract(31, 27, w)
 def e5_clamp(xb): x = fp32(xb); return z3.If(z3.fpLT(x, FPV(0.0)), FPV(0.0), z3.If(z3.fpGT(x, FPV(E5_MAX)), FPV(E5_MAX), x))
 def e5_max(i):
     c = [e5_clamp(x) for x in i[0]]; m = z3.If(z3.fpGT(c[1], c[0]), c[1], c[0]); return z3.If(z3.fpGT(c[2], m), c[2], m)
+def e5_binade(b, E): return z3.And(z3.Extract(31, 31, b) == 0, z3.ULE(z3.Extract(30, 23, b), 110)) if E is None else z3.Extract(31, 23, b) == E + 127
 def job_f3x9_decode(S):
+    res = sym_call(U, 'unpack_F3x9_E1x5'); p = res.ins[0][0]; m, e = e5_fields(p)
+    sub = [(app, exp2_model(app.arg(0), n)) for n, app in enumerate(apps_of([v.bits for v in res.outs[0]], 'exp232'))]
+    scale = z3.fpBVToFP(z3.Concat(z3.BitVecVal(0, 1), z3.ZeroExt(3, e) + (127 - 24), z3.BitVecVal(0, 23)), F32)
     def spec(i, o):
-        m, e = e5_fields(i[0][0])
-        scale = z3.fpBVToFP(z3.Concat(z3.BitVecVal(0, 1), z3.ZeroExt(3, e) + (127 - 24), z3.BitVecVal(0, 23)), F32)
-        return [('component[%d]==m[%d]*2^(e-24)' % (k, k), o[0][k].fp == z3.fpMul(RNE, z3.fpUnsignedToFP(RNE, m[k], F32), scale)) for k in range(3)]
-    S.check_fn(U, 'unpack_F3x9_E1x5', spec, extra_hyps=e5_exp2_contract, timeout=S.cap(100, 300), mutant=lambda i, o: [('next-field', o[0][0].fp == z3.fpMul(RNE, z3.fpUnsignedToFP(RNE, e5_fields(i[0][0])[0][1], F32), FPV(1.0)))],
-               bounds='every 32-bit word; mantissa k at bits 9k..9k+8, exponent at bits 27..31; the product is exact')
+        mm, ee = e5_fields(i[0][0]); sc = z3.fpBVToFP(z3.Concat(z3.BitVecVal(0, 1), z3.ZeroExt(3, ee) + (127 - 24), z3.BitVecVal(0, 23)), F32)
+        return [('component%d==mantissa%d*2^(e-24)' % (k, k), fpv_of(o[0][k]) == z3.fpMul(RNE, z3.fpUnsignedToFP(RNE, mm[k], F32), sc)) for k in range(3)]
+    outs = [[FV(32, bits=_subst_fix(v.bits, sub)) for v in res.outs[0]]]
+    for label, g in spec(res.ins, outs):
+        S.prove('c06.unpack_F3x9_E1x5.' + label, g, res.axioms, timeout=S.cap(60, 200), functions=['w_unpack_F3x9_E1x5'], vars_=[p], replay=S._replayer(res, (spec, label), None, U, 'unpack_F3x9_E1x5', 'fp', label),
+                bounds='every 32-bit word; mantissa k at bits 9k..9k+8, exponent at bits 27..31; the product is exact; exp2f by contract (exact at integers)')
+    if not S.quick: S.prove('c06.unpack_F3x9_E1x5.twin.next-field', outs[0][0].fp == z3.fpMul(RNE, z3.fpUnsignedToFP(RNE, m[1], F32), scale), res.axioms, kind='mutant-twin', expect='sat', mandatory=False, vars_=[p])
 E5_BINADES = [None] + list(range(-16, 16))
 def job_f3x9_pack(binades):
-    """per binade E of the largest clamped component (None: below 2^-16): the shared exponent is max(E,-16)+16 or one more, and with the exponent e the function returned, every mantissa is within 1/2 (+2^-15) of
-    clamp(x_k)/2^(e-24), i.e. the decoded value is within half a mantissa step of x_k; the largest mantissa is normalised (>= 256) unless e == 0"""
+    """per binade E of the largest clamped component (None: below 2^-16) and per case of e5_cases: the shared exponent is max(E,-16)+16 or one more, and every mantissa is within 1/2 (+2^-15) of
+    clamp(x_k)/2^(e-24) for the exponent e the function returns, i.e. the decoded value is within half a mantissa step of x_k"""
     def run(S):
-        cases = []
+        res, w, FL, M, same = e5_prepare('pack_F3x9_E1x5'); i = res.ins; allv = list(i[0]); Mb = z3.fpToIEEEBV(M); pre = lambda ins: [notnan(x) for x in ins[0]]
+        fl = ['w_pack_F3x9_E1x5']; nm = 'c06.pack_F3x9_E1x5.'
+        for j, g in enumerate(same): S.prove(nm + 'same-log2-argument%d' % j, g, pre(i), functions=fl, vars_=allv)
         for E in binades:
-            a = 0 if E is None else E + 16
-            hyp = (lambda i, E=E: [z3.Extract(31, 31, z3.fpToIEEEBV(e5_max(i))) == 0, z3.ULE(z3.Extract(30, 23, z3.fpToIEEEBV(e5_max(i))), 110) if E is None else z3.Extract(30, 23, z3.fpToIEEEBV(e5_max(i))) == E + 127])
-            cn = 'tiny' if E is None else 'E%d' % E
-            cases.append((cn, hyp, (lambda i, o, a=a, E=E: [('shared-exponent', e5_fields(o[0][0])[1] == a if E is None else z3.Or(e5_fields(o[0][0])[1] == a, e5_fields(o[0][0])[1] == a + 1))])))
-            for ev in ((a,) if E is None else (a, a + 1)):
-                if ev > 31: continue
-                def spec(i, o, ev=ev):
-                    m, e = e5_fields(o[0][0]); g = []
+            cn = 'tiny' if E is None else 'E%d' % E; a = 0 if E is None else E + 16
+            hy0 = pre(i) + res.axioms + [e5_binade(z3.fpToIEEEBV(e5_max(i)), E)]
+            bnd = 'every non-NaN vector whose largest clamped component lies in the binade %s; exp2f/log2f by contract' % cn
+            S.prove(nm + cn + '.binade-of-log2-argument', e5_binade(Mb, E), hy0, functions=fl, vars_=allv, bounds=bnd, timeout=S.cap(60, 200))
+            for case, hyp, wc, ev in e5_cases(w, FL, Mb, E):
+                hy = hy0 + hyp; m_, e_ = e5_fields(wc)
+                def spec(ins, o, ev=ev, a=a, word=None):
+                    m, e = e5_fields(o[0][0] if word is None else word); g = [('shared-exponent', z3.And(e == ev, z3.BoolVal(ev in (a, a + 1))))]
                     for k in range(3):
-                        Y = z3.fpMul(RNE, z3.fpFPToFP(RNE, e5_clamp(i[0][k]), F64), z3.FPVal(2.0 ** (24 - ev), F64)); mf = z3.fpUnsignedToFP(RNE, m[k], F64); tol = z3.FPVal(E5_TOL, F64)
+                        Y = z3.fpMul(RNE, z3.fpFPToFP(RNE, e5_clamp(ins[0][k]), F64), z3.FPVal(2.0 ** (24 - ev), F64)); mf = z3.fpUnsignedToFP(RNE, m[k], F64); tol = z3.FPVal(E5_TOL, F64)
                         g.append(('quantised-lo%d' % k, z3.fpLEQ(z3.fpSub(RNE, mf, tol), Y))); g.append(('quantised-hi%d' % k, z3.fpLEQ(Y, z3.fpAdd(RNE, mf, tol))))
-                    if ev > 0: g.append(('normalised', z3.Or(*[z3.UGE(x, 256) for x in m])))
                     return g
-                cases.append(('%s.e%d' % (cn, ev), (lambda i, hyp=hyp: hyp(i)), spec))
-        res = sym_call(U, 'pack_F3x9_E1x5'); allv = [t for r in res.ins for t in r]; pre = lambda i: [notnan(x) for x in i[0]]
-        fixed = e5_exp2_contract(res) + res.axioms + pre(res.ins)
-        for cn, hyp, spec in cases:
-            E = None if cn.startswith('tiny') else int(cn.split('.')[0][1:]); hy = hyp(res.ins) + e5_log2_contract(res, E) + fixed
-            if '.e' in cn: hy.append(e5_fields(res.outs[0][0])[1] == int(cn.split('.e')[1]))
-            for label, g in spec(res.ins, res.outs):
-                on = 'c06.pack_F3x9_E1x5.%s.%s' % (cn, label)
-                S._prove_known(on, g, hy, res, ['KF-C06-F3x9-sharedexp-max'], timeout=S.cap(100, 300), solver='z3', kind='spec', functions=['w_pack_F3x9_E1x5'], spec_fn=(spec, label), pre_fn=pre, unit=U, fname='pack_F3x9_E1x5', mode='fp', vars_=allv,
-                               bounds='every non-NaN vector whose largest clamped component lies in the binade %s; exp2f/log2f by contract' % cn)
+                for label, g in spec(i, None, word=wc):
+                    S._prove_known(nm + '%s.%s.%s' % (cn, case, label), g, hy, res, ['KF-C06-F3x9-sharedexp-max-pack'], timeout=S.cap(60, 200), solver='z3', kind='spec', functions=fl, spec_fn=(spec, label), pre_fn=pre, unit=U,
+                                   fname='pack_F3x9_E1x5', mode='fp', vars_=allv, bounds=bnd + '; case ' + case)
     return run
 def e5_canonical(w): m, e = e5_fields(w); return z3.Or(e == 0, z3.UGE(m[0], 256), z3.UGE(m[1], 256), z3.UGE(m[2], 256))
 def job_f3x9_repack(exps):
     """pack(unpack(p)) == p for every normalised code (largest mantissa >= 256, or exponent 0), per value of the exponent field"""
     def run(S):
-        res = sym_call(U, 'rt_F3x9_E1x5'); allv = [t for r in res.ins for t in r]; p = res.ins[0][0]; pre = lambda i: [e5_canonical(i[0][0])]
-        fixed = e5_exp2_contract(res) + res.axioms + pre(res.ins)
-        def spec(i, o):
-            mi, ei = e5_fields(i[0][0]); mo, eo = e5_fields(o[0][0])
+        res, w, FL, M, same = e5_prepare('rt_F3x9_E1x5'); p = res.ins[0][0]; Mb = z3.fpToIEEEBV(M); pre = lambda ins: [e5_canonical(ins[0][0])]; fl = ['w_rt_F3x9_E1x5']; nm = 'c06.rt_F3x9_E1x5.'
+        for j, g in enumerate(same): S.prove(nm + 'same-log2-argument%d' % j, g, pre(res.ins), functions=fl, vars_=[p])
+        def spec(ins, o, word=None):
+            mi, ei = e5_fields(ins[0][0]); mo, eo = e5_fields(o[0][0] if word is None else word)
             return [('repack-mantissa%d' % k, mo[k] == mi[k]) for k in range(3)] + [('repack-exponent', eo == ei)]
         for ev in exps:
-            hy = [e5_fields(p)[1] == ev] + (e5_log2_contract(res, None) + e5_log2_contract(res, -16) if ev == 0 else e5_log2_contract(res, ev - 16)) + fixed
-            for label, g in spec(res.ins, res.outs):
-                S._prove_known('c06.rt_F3x9_E1x5.e%d.%s' % (ev, label), g, hy, res, ['KF-C06-F3x9-sharedexp-max-repack'], timeout=S.cap(100, 300), solver='z3', kind='spec', functions=['w_rt_F3x9_E1x5'], spec_fn=(spec, label), pre_fn=pre, unit=U,
-                               fname='rt_F3x9_E1x5', mode='fp', vars_=allv, bounds='every normalised word with exponent field %d; exp2f/log2f by contract' % ev)
+            hy0 = pre(res.ins) + res.axioms + [e5_fields(p)[1] == ev]; bnd = 'every normalised word with exponent field %d; exp2f/log2f by contract' % ev
+            # the decoded maximum lies in the binade ev-16 and is not within 16 ulps of the next one (exponent 0: below 2^-15), so floor(log2f) is ev-16 (exponent 0: <= -16) by the contract
+            if ev == 0: S.prove(nm + 'e0.binade-of-log2-argument', z3.And(z3.Extract(31, 31, Mb) == 0, z3.ULE(z3.Extract(30, 23, Mb), 111), z3.ULT(z3.Extract(22, 0, Mb), (1 << 23) - 16)), hy0, functions=fl, vars_=[p], bounds=bnd)
+            else: S.prove(nm + 'e%d.binade-of-log2-argument' % ev, z3.And(z3.Extract(31, 23, Mb) == ev - 16 + 127, z3.ULT(z3.Extract(22, 0, Mb), (1 << 23) - 16)), hy0, functions=fl, vars_=[p], bounds=bnd)
+            cases = [c for c in e5_cases(w, FL, Mb, None if ev == 0 else ev - 16) if not c[0].startswith('floor%d' % (ev - 15))]
+            for case, hyp, wc, _ in cases:
+                for label, g in spec(res.ins, None, word=wc):
+                    S._prove_known(nm + 'e%d.%s.%s' % (ev, case, label), g, hy0 + hyp, res, ['KF-C06-F3x9-sharedexp-max-repack'], timeout=S.cap(60, 200), solver='z3', kind='spec', functions=fl, spec_fn=(spec, label), pre_fn=pre, unit=U,
+                                   fname='rt_F3x9_E1x5', mode='fp', vars_=[p], bounds=bnd + '; case ' + case)
     return run
 
 # ----------------------------------------------------------------------------- RGBM (rounding-erased)
